@@ -604,7 +604,7 @@ fn main() {
     let prop = Property {
         id: "C05",
         level: "exploration",
-        rule: "Content-Location strings from the grammar prefix{9} x 1..d segments{10} (d=3 quick, 4 thorough: complete enumeration) plus all locations of 1..d' segments (d'=3 quick, 4 thorough) over {.., ., names of the siblings whose names extend the destination's name, canary names} and seeded random strings are announced by a hand-built FDT and delivered through a real session to the filesystem writer with three endings (complete, MD5 error, interrupted); oracle 1: before/after snapshot (path, type, size, content hash) of a jail three levels above the destination with canaries at every level, a prefix-sibling and filesystem-root litter scan - nothing outside the destination may be created, modified or deleted; oracle 2 (strace sample): every mutating file syscall issued during the session targets a path that normalises under the destination, successful or not; a case is one location (3 sessions), non-trivial when a file was written inside the destination or a syscall was judged; distinct = distinct locations",
+        rule: "Content-Location strings from the grammar prefix{9} x 1..d segments{10} (d=3 quick, 4 thorough: complete enumeration) plus all locations of 1..d' segments (d'=3 quick, 4 thorough) over {.., ., names of the siblings whose names extend the destination's name, canary names} and seeded random strings are announced by a hand-built FDT and delivered through a real session to the filesystem writer with three endings (complete, MD5 error, interrupted); oracle 1: before/after snapshot (path, type, size, content hash) of a jail three levels above the destination with canaries at every level, a prefix-sibling and filesystem-root litter scan - nothing outside the destination may be created, modified or deleted; oracle 2 (strace sample): every mutating file syscall issued during the session targets a path that normalises under the destination, successful or not; a case is one location (3 sessions), non-trivial when a file was written inside the destination or a syscall was judged; distinct = distinct locations; the real filesystem writer sits behind a journaling wrapper: five endings per location (complete, MD5 error, interrupted, empty object with in-band OTI only, complete object with in-band OTI only), and once open() refused a location nothing is written or completed and (last two endings, receiver remembering failed objects) nb_objects_error() is not 0",
         assumptions: vec![
             "no symlinks are planted inside the destination (a FLUTE sender cannot create them)".into(),
             "reading / stat outside the destination is not a violation".into(),
